@@ -114,6 +114,19 @@ pub fn enumerate(w: &World, s: &Spec, d: &mut D) -> Vec<ECase> {
                     let mode = if k % 2 == 0 { Mode::Clean } else { Mode::Mistakes(3) };
                     let items = gen::gen_field_items(w, fs, &pseudo, d, mode, 2, &mut st);
                     add(Syn::List(vec![Node::Item(name.clone(), Syn::List(items))]), if v.skip { "struct-variant:skipped" } else { "struct-variant:fields" }, true, &mut out);
+                    // a struct variant is parsed as a struct receiver: names it does not know are ignored where the enum
+                    // allows unknown fields (whatever the variant's own options), and reported where it does not
+                    if k == 0 {
+                        let mut items = gen::gen_field_items(w, fs, &pseudo, d, Mode::Clean, 2, &mut st);
+                        let at = d.below(items.len() + 1);
+                        let extra = match d.below(3) {
+                            0 => Syn::Word,
+                            1 => Syn::List(vec![Node::Item("deeper".into(), Syn::Word)]),
+                            _ => Syn::List(vec![]),
+                        };
+                        items.insert(at, Node::Item("zz_unheard_of".into(), extra));
+                        add(Syn::List(vec![Node::Item(name.clone(), Syn::List(items))]), if s.container.allow_unknown { "struct-variant:unknown-name-allowed" } else { "struct-variant:unknown-name" }, true, &mut out);
+                    }
                 }
             }
         }
